@@ -283,6 +283,14 @@ func cmdCheck(args []string) int {
 			}
 			continue
 		}
+		if q.kind == "assert" && !r.reproduced && strings.HasPrefix(r.outcome, "assert:") {
+			// natively another obligation fails first on this input: still a reproduced violation if that
+			// obligation belongs to the same property
+			if l := strings.TrimPrefix(r.outcome, "assert:"); prop.relevant(Finding{Kind: "assert", Label: l}) && strings.HasPrefix(l, "C") {
+				r.reproduced = true
+				r.outcome += " (an earlier obligation of the same property fails first natively)"
+			}
+		}
 		if q.kind == "lockset" {
 			r.reproduced, r.outcome = true, "lock-discipline obligation, decided by the solver only (not natively replayable)"
 		}
